@@ -79,6 +79,16 @@ Encode(form, a) == form \in Forms /\ obs' = [k |-> "enc", out |-> EncodeBytes(re
 EncodeField(form, a) == form \in Forms /\ obs' = [k |-> "encf", out |-> EncodeSpec(reg[a])] /\ UNCHANGED <<reg, hseen>>
 ObsEq(form, a, b) == form \in Forms /\ obs' = [k |-> "eq", out |-> (EncodeSpec(reg[a]) = EncodeSpec(reg[b]))] /\ UNCHANGED <<reg, hseen>>
 ObsIsIdentity(pred, a) == pred \in Forms /\ obs' = [k |-> "isid", out |-> (EncodeSpec(reg[a]) = NZero)] /\ UNCHANGED <<reg, hseen>>
+\* observations made DIRECTLY on the affine point an affine-typed operator returned (no conversion in between):
+\* identity predicates / equality with the identity constants / hash coherence, and the compressed serialisation
+ObsAffineId(op, form, pred, a, b) ==
+  LET res == IF op = "add" THEN EAdd(reg[a], reg[b]) ELSE ESub(reg[a], reg[b]) IN
+  /\ op \in {"add", "sub"} /\ form \in Forms /\ pred \in Forms
+  /\ obs' = [k |-> "aobs", out |-> (EncodeSpec(res) = NZero)] /\ UNCHANGED <<reg, hseen>>
+ObsAffineEnc(op, form, a, b) ==
+  LET res == IF op = "add" THEN EAdd(reg[a], reg[b]) ELSE ESub(reg[a], reg[b]) IN
+  /\ op \in {"add", "sub"} /\ form \in Forms
+  /\ obs' = [k |-> "aenc", out |-> EncodeBytes(res)] /\ UNCHANGED <<reg, hseen>>
 \* hashing: no fixed digest is specified, only coherence with equality
 ObsHash(ty, a, h) ==
   LET e == EncodeSpec(reg[a]) IN
